@@ -2,11 +2,11 @@
 """Run every check on every behaviour-preserving refactoring of benign_corpus/ (produced by independent sub-agents, each with a
 demonstration that the observable behaviour is unchanged) and list the checks that do not exit 0.  Each patch is applied to a scratch
 copy of /repo outside /repo and /verif (removed afterwards).  Tooling only -- not a registered check.
-Usage: tools/benign_eval.py [Cxx/N ...]"""
+Usage: [BENIGN_CORPUS=benign_holdout] tools/benign_eval.py [Cxx/N ...]"""
 import json, os, shutil, subprocess, sys, tempfile
 from concurrent.futures import ThreadPoolExecutor
 HERE = os.path.dirname(os.path.dirname(os.path.abspath(__file__)))
-CORPUS = os.path.join(HERE, 'benign_corpus')
+CORPUS = os.path.join(HERE, os.environ.get('BENIGN_CORPUS', 'benign_corpus'))     # BENIGN_CORPUS=benign_holdout: the second, held-out round
 ALL = ['C%02d' % i for i in range(1, 21)]
 
 
